@@ -5,7 +5,8 @@ from types import SimpleNamespace as NS
 from vf.api import Ob, sl, concrete, SLICE, within
 from vf import fx
 
-from cylc.flow.task_outputs import TaskOutputs, get_completion_expression
+from cylc.flow.task_outputs import (
+    FINAL_OUTPUT_COMPLETION, TaskOutputs, get_completion_expression)
 
 META = dict(
     level='model_checking',
@@ -90,7 +91,9 @@ def smt_default_expression(slc):
     v = {t.replace('-', '_'): z3.Bool(t.replace('-', '_')) for t in TRIGGERS}
     for i, decl in enumerate(DECLS):
         expr = get_completion_expression(mk_tdef(decl))
-        f, env = py_bool_to_z3(expr, dict(v))
+        # (TaskOutputs.is_complete falls back to "any final output" for an
+        # empty expression)
+        f, env = py_bool_to_z3(expr or FINAL_OUTPUT_COMPLETION, dict(v))
         if set(env) - set(v):
             return ses.result('harness_error',
                               message=f'unknown names in {expr!r}')
